@@ -532,6 +532,52 @@ theorem c16_Block_roundtrip : Lawful block := by
   unfold block
   infer_instance
 
+/-- `LibDescr` -/
+@[instance]
+theorem c16_LibDescr_roundtrip : Lawful libDescr := by unfold libDescr; infer_instance
+
+/-- `ShardStateUnsplit` fields -/
+@[instance]
+theorem c16_ShardStateUnsplitBody_roundtrip : Lawful shardStateUnsplitBody := by unfold shardStateUnsplitBody; infer_instance
+
+/-- `ShardStateUnsplit` -/
+@[instance]
+theorem c16_ShardStateUnsplit_roundtrip : Lawful shardStateUnsplit := by unfold shardStateUnsplit; infer_instance
+
+/-- `ShardState` (unsplit | split_state) -/
+@[instance]
+theorem c16_ShardState_roundtrip : Lawful shardState := by unfold shardState shardStateAlts; infer_instance
+
+/-! ### non-vacuity: concrete values meet the hypothesis `enc v = some _` (and decode back, trailer left over) -/
+
+/-- ShardIdent: a concrete value is encodable -/
+example : (shardIdent.enc (.record [("shard_pfx_bits", .int 3), ("workchain_id", .int (-1)), ("shard_prefix", .int 5)])).isSome = true := by
+  decide
+
+/-- TrStoragePhase (Grams, Maybe, tagged AccStatusChange): the exact bits, … -/
+example : (trStoragePhase.enc (.record [("storage_fees_collected", .int 1000), ("storage_fees_due", .unit),
+    ("status_change", .con "acst_frozen" .unit)])).map (·.bits) =
+    some [false,false,true,false, false,false,false,false,false,false,true,true, true,true,true,false,true,false,false,false,
+          false, true,false] := by decide
+
+/-- … and decoding them with a 2-bit trailer leaves exactly the trailer -/
+example : (trStoragePhase.dec ⟨[false,false,true,false, false,false,false,false,false,false,true,true,
+    true,true,true,false,true,false,false,false, false, true,false, true, true], []⟩).map (·.2.bits) = some [true, true] := by decide
+
+/-- ShardAccount (a `^Account` reference): encodable, one reference -/
+example : (shardAccount.enc (.record [("account", .con "account_none" .unit), ("last_trans_hash", .bits (List.replicate 256 true)),
+    ("last_trans_lt", .int (2 ^ 63 + 5))])).map (·.refs.length) = some 1 := by decide +kernel
+
+/-- ValidatorSet `validators#11` with a one-entry inline Hashmap 16 -/
+example : (validatorSet.enc (.con "validators" (.record [("utime_since", .int 1), ("utime_until", .int 2), ("total", .int 1), ("main", .int 1),
+    ("list", .record [("label", .con "hml_long" (.record [("n", .int 16), ("s", .bits (List.replicate 16 false))])),
+      ("node", .con "validator" (.record [("public_key", .record [("pubkey", .bits (List.replicate 256 false))]), ("weight", .int 7)]))])]))).isSome
+    = true := by decide +kernel
+
+/-- BlkPrevInfo 1 (two references) and FutureSplitMerge -/
+example : (futureSplitMerge.enc (.con "fsm_merge" (.record [("merge_utime", .int 5), ("interval", .int 6)]))).map (·.bits.length) = some 66 := by
+  decide
+
 /-- No constructor tag of any covered type is a prefix of another tag of the same type, so `tagged` is a genuine
     codec for each of them (never the empty type). -/
 theorem c16_tags_prefix_free : allTagLists.all (fun p => prefixFree p.2) = true := by decide
